@@ -1,7 +1,7 @@
 (* C04 — no transaction sequence halts the chain; updates are always valid for CometBFT. *)
 From stdpp Require Import gmap.
 Require Import Model.Base Model.State Model.Staking Model.Slashing Model.Poa Model.App.
-Require Import proofs.Inv proofs.InvPres proofs.InvMsgs proofs.InvHistory proofs.L1More.
+Require Import proofs.Inv proofs.InvPres proofs.InvMsgs proofs.InvHistory proofs.InvComet proofs.L1More.
 
 (* after every block of every history from every (non-negative) genesis — any number of blocks, any in-block
    order of any messages of the modelled alphabet, any downtime pattern, any time steps — the chain invariant
@@ -22,6 +22,14 @@ Theorem C04_next_block_safe : forall g bs b,
   w_halted w' <> Some (HEndBlock 1) /\ w_halted w' <> Some (HEndBlock 2) /\
   w_halted w' <> Some (HComet 1) /\ w_halted w' <> Some (HComet 2).
 Proof. intros g bs b Hg w Hh. apply block_safe; [apply reachable_CI; exact Hg|exact Hh]. Qed.
+
+(* ... nor for the removal of a key that is not in its set (3): every zero-power update concerns a validator of the
+   last set, and CometBFT's set is the last set *)
+Theorem C04_never_removes_a_non_member : forall g bs b,
+  wf_genesis g ->
+  let w := run_world (init_world g) bs in
+  w_halted w = None -> w_halted (fst (run_block w b)) <> Some (HComet 3).
+Proof. intros g bs b Hg w Hh. apply block_safe_members; [apply run_world_WI; apply init_world_WI; exact Hg|exact Hh]. Qed.
 
 (* the EndBlocker's own contract, for any store satisfying the invariant and index sets of any size *)
 Theorem C04_endblocker_contract : forall c,
